@@ -106,10 +106,6 @@ where
     /// Observe new data point.
     pub fn add(&mut self, obj: T) {
         let t = self.k * 4; // TODO: make this a parameter
-        #[cfg(feature = "verif_hooks")]
-        if (self.i >= t) && (self.i < self.skip_until) {
-            crate::verif::hit(crate::verif::Event::ResGapSkip);
-        }
 
         if self.i < self.k {
             // initial fill-up
@@ -137,6 +133,10 @@ where
                 // as well, otherwise that element would always be sampled
                 let g = self.draw_gap(self.i);
                 self.skip_until = self.i.saturating_add(g);
+            }
+            #[cfg(feature = "verif_hooks")]
+            if self.i < self.skip_until {
+                crate::verif::hit(crate::verif::Event::ResGapSkip);
             }
             if self.i >= self.skip_until {
                 #[cfg(feature = "verif_hooks")]
